@@ -163,12 +163,33 @@ type outcome struct {
 	Panic *fw.Panic
 }
 
+func ticksNow() int64 {
+	s := int64(0)
+	for _, site := range fw.TickSites() {
+		s += fw.TickCount(site)
+	}
+	return s
+}
+
+// lastTicks: loop iterations (Tick hook) used by the most recent guarded call.
+var lastTicks int64
+
+// iterFactor scales the tolerance of the iterative routines with the number
+// of sweeps actually performed: every sweep applies O(n) orthogonal
+// transformations, each contributing O(eps); up to 4 sweeps per row (what a
+// converging run needs) are covered by the constant.
+func iterFactor(n int) float64 {
+	return math.Max(1, float64(lastTicks)/float64(4*n))
+}
+
 // guard runs f under the loop budget; returns a verdict for rejection / no-return.
 func guard(budget int64, f func() error) (verdict, bool) {
 	var err error
+	t0 := ticksNow()
 	fw.SetTickBudget(budget)
 	p := fw.Call(func() { err = f() })
 	fw.SetTickBudget(0)
+	lastTicks = ticksNow() - t0
 	switch {
 	case p != nil && p.Budget:
 		return verdict{Skip: "no-return", Detail: p.Site}, false
@@ -642,15 +663,19 @@ func (o qrOpts) String() string {
 	if o.CU {
 		s = append(s, "ComputeU")
 	}
-	if o.Eps != 0 {
-		s = append(s, fmt.Sprintf("Epsilon=%g", o.Eps))
-	} else {
-		s = append(s, "Epsilon=default")
-	}
 	return strings.Join(s, "+")
 }
 
 func tickBudget(n int) int64 { return int64(300*n + 300) }
+
+// epsLabel names the deflation tolerance option (coverage and witness only:
+// the signature does not depend on it).
+func epsLabel(e float64) string {
+	if e == 0 {
+		return "Epsilon=default"
+	}
+	return fmt.Sprintf("Epsilon=%g", e)
+}
 
 func runQR(t elemT, in sqInput, o qrOpts, is *qrAlgorithm.InSitu) verdict {
 	A := in.A
@@ -679,8 +704,10 @@ func runQR(t elemT, in sqInput, o qrOpts, is *qrAlgorithm.InSitu) verdict {
 	}
 	c := newChecker()
 	c.w["T"] = T.Rows()
+	c.w["sweeps"] = lastTicks
 	nrm := A.NormFro()
-	tol := (cIter*float64(n)*eps + float64(n)*o.Eps) * nrm
+	itf := iterFactor(n)
+	tol := (cIter*itf*float64(n)*eps + float64(n)*o.Eps) * nrm
 	if !T.Finite() || U != nil && !U.Finite() {
 		c.fail("non-finite", "non-finite factor")
 		return c.verdict()
@@ -729,7 +756,7 @@ func runQR(t elemT, in sqInput, o qrOpts, is *qrAlgorithm.InSitu) verdict {
 	}
 	c.middle = false
 	if U != nil {
-		c.le("orthogonal", "max|U^T*U - I|", la.OrthoDefect(U), cIter*float64(n)*eps)
+		c.le("orthogonal", "max|U^T*U - I|", la.OrthoDefect(U), cIter*itf*float64(n)*eps)
 		c.le("reconstruct", "max|U*T*U^T - A|", maxAbsDiff(la.MulNaive(la.MulNaive(U, T), U.T()), A), tol)
 	}
 	return c.verdict()
@@ -750,11 +777,6 @@ func (o eigOpts) String() string {
 	}
 	if o.Vec {
 		s = append(s, "ComputeEigenvectors")
-	}
-	if o.Eps != 0 {
-		s = append(s, fmt.Sprintf("Epsilon=%g", o.Eps))
-	} else {
-		s = append(s, "Epsilon=default")
 	}
 	return strings.Join(s, "+")
 }
@@ -790,8 +812,9 @@ func runEigensystem(t elemT, in sqInput, o eigOpts, is *eigensystem.InSitu) verd
 	}
 	c := newChecker()
 	c.w["eigenvalues"] = lam
+	c.w["sweeps"] = lastTicks
 	nrm := A.NormFro()
-	tol := (cIter*float64(n)*eps + float64(n)*o.Eps) * nrm
+	tol := (cIter*iterFactor(n)*float64(n)*eps + float64(n)*o.Eps) * nrm
 	if !la.VecFinite(lam) {
 		c.fail("non-finite", "non-finite eigenvalue")
 		return c.verdict()
@@ -871,7 +894,38 @@ func runEigensystem(t elemT, in sqInput, o eigOpts, is *eigensystem.InSitu) verd
 		if !o.Sym && smin > float64(n)*tol {
 			continue // real part of a complex pair (or not at rounding level): the vector is not judged
 		}
+		if !o.Sym && (in.Eig == nil || math.IsInf(in.KappaX, 0)) && !isolatedWellConditioned(sh, sv, nrm) {
+			// the conditioning of this eigenvalue is not known by construction and it is
+			// not a simple, isolated, well-conditioned one (e.g. a defective double
+			// eigenvalue, which rounding legitimately turns into a complex pair)
+			c.w["eigenpairs not judged (ill-conditioned eigenvalue)"] = true
+			continue
+		}
+		// geometric multiplicity of lambda_j as a real eigenvalue and number of
+		// returned values equal to it: when there are more copies than the
+		// multiplicity (the real part of a complex pair coincides with a real
+		// eigenvalue) only that many of their columns have to be eigenvectors
+		mult, copies, pass := 0, 0, 0
+		for _, x := range sv {
+			if x <= float64(n)*tol {
+				mult++
+			}
+		}
+		for i := 0; i < n; i++ {
+			if math.Abs(lam[i]-lam[j]) <= float64(n)*tol {
+				copies++
+				if resid(j, i) <= float64(n)*tol {
+					pass++
+				}
+			}
+		}
 		judged++
+		if !o.Sym && copies > mult {
+			if pass < mult {
+				c.fail("eigenpair", fmt.Sprintf("the real eigenvalue %.17g (geometric multiplicity %d) is returned %d times, but only %d of those columns satisfy A*v = lambda*v", lam[j], mult, copies, pass))
+			}
+			continue
+		}
 		realIdx = append(realIdx, j)
 		if resid(j, j) > float64(n)*tol {
 			failed = true
@@ -929,6 +983,28 @@ func runEigensystem(t elemT, in sqInput, o eigOpts, is *eigensystem.InSitu) verd
 	return c.verdict()
 }
 
+// isolatedWellConditioned: lambda (already subtracted: m = A - lambda I, sv its
+// singular values in descending order) is a simple eigenvalue, separated from
+// the rest of the spectrum (second smallest singular value >= 1e-3 |A|_F) and
+// with eigenvalue condition number 1/|y^T x| <= 100 (x, y the right and left
+// null vectors of m).
+func isolatedWellConditioned(m *la.Mat, sv []float64, nrm float64) bool {
+	n := m.R
+	if n == 1 {
+		return true
+	}
+	if !(sv[n-2] >= 1e-3*nrm) {
+		return false
+	}
+	_, vx := la.SymEig(la.Mul(m.T(), m)) // ascending: column 0 spans the null space
+	_, vy := la.SymEig(la.Mul(m, m.T()))
+	d := 0.0
+	for i := 0; i < n; i++ {
+		d += vx.At(i, 0) * vy.At(i, 0)
+	}
+	return math.Abs(d) >= 1e-2
+}
+
 /* svd
  * -------------------------------------------------------------------------- */
 
@@ -961,7 +1037,7 @@ func runSVD(t elemT, A *la.Mat, cu, cv bool, epsOpt float64, is *svd.InSitu) ver
 	if e == 0 {
 		e = 1.11e-16
 	}
-	return judgeUBV("S", t, A, S, U, V, cu, cv, m, n, 0, cIter, e, true)
+	return judgeUBV("S", t, A, S, U, V, cu, cv, m, n, 0, cIter*iterFactor(n), e, true)
 }
 
 /* msqrt, msqrtInv
